@@ -103,6 +103,13 @@ def stepC08 (fields : List String) : String :=
     match parseOpnd a, parseOpnd b with
     | some p, some q => unitVOut (tempDivide tab p q)
     | _, _ => "bad-op"
+  | ["c08.floordiv", a, b, y] =>
+    match parseOpnd a, parseOpnd b, fb y with
+    | some p, some q, some x1 =>
+      match tempFloorDivide tab p q with
+      | .ok (u, c) => s!"ok\t{bitsStr u.scale}\t{bitsStr u.offset}\t{u.dim.str}\t{bitsStr (applyC c x1)}"
+      | .error e => s!"err\t{e.str}"
+    | _, _, _ => "bad-op"
   | ["c08.unary", op, p, a] =>
     match parseUnOp op p, parseTU a with
     | some o, some u => unitVOut (tempUnary tab o u)
